@@ -118,22 +118,36 @@ Fixpoint fill (fixed : list (option nat)) (free : list nat) : list nat :=
   | None :: t => match free with x :: xs => x :: fill t xs | [] => 0%nat :: fill t [] end
   end.
 
-Definition conditionalize (tol : F) (d : dist) (idxs vals : list Z) : mres dist :=
-  if negb (Nat.eqb (length idxs) (length vals)) then MErr 7 else
-  if existsb (fun i => (i <? 0)%Z) idxs || existsb (fun i => (i <? 0)%Z) vals then MErr 8 else
-  let sh := d_shape d in
-  let nax := length sh in
+(* argument checks, in the order the code makes them: lengths differ (7), a negative index or value (8), an index beyond the
+   rank or a value beyond its variable's size (IndexError, 9) *)
+Definition cond_precheck (sh : list nat) (idxs vals : list Z) : option nat :=
+  if negb (Nat.eqb (length idxs) (length vals)) then Some 7%nat else
+  if existsb (fun i => (i <? 0)%Z) idxs || existsb (fun i => (i <? 0)%Z) vals then Some 8%nat else
   let iv := combine (map Z.to_nat idxs) (map Z.to_nat vals) in
-  if existsb (fun p => (nax <=? fst p)%nat || (nth (fst p) sh 0%nat <=? snd p)%nat) iv then MErr 9 else
-  let fixed := fold_left (fun cur p => assign cur (fst p) (snd p)) iv (map (fun _ => None) sh) in
-  let freemask := map (fun o => match o with None => true | Some _ => false end) fixed in
-  let newshape := select freemask sh in
-  let sel := map (fun k' => nth (rowmajorn sh (fill fixed (digitsn newshape k'))) (d_ps d) 0)
-                 (seq 0 (prodn newshape)) in
-  let tot := lsum sel in
-  if match newshape with [] => true | _ => false end then MErr 10 else
-  if kleb F tot 0 && kleb F 0 tot then MErr 6 else
-  construct tol tol (map (fun p => p / tot) sel) (Some newshape).
+  if existsb (fun p => (length sh <=? fst p)%nat || (nth (fst p) sh 0%nat <=? snd p)%nat) iv then Some 9%nat else None.
+(* the conditioning assignment per axis (a variable listed twice: the LATER value decides) *)
+Definition cond_fixed (sh : list nat) (idxs vals : list Z) : list (option nat) :=
+  fold_left (fun cur p => assign cur (fst p) (snd p)) (combine (map Z.to_nat idxs) (map Z.to_nat vals)) (map (fun _ => None) sh).
+Definition cond_freemask (fixed : list (option nat)) : list bool :=
+  map (fun o => match o with None => true | Some _ => false end) fixed.
+(* the selected slice, indexed by the free multi-index *)
+Definition cond_sel (sh : list nat) (ps : list F) (fixed : list (option nat)) : list F :=
+  let newshape := select (cond_freemask fixed) sh in
+  map (fun k' => nth (rowmajorn sh (fill fixed (digitsn newshape k'))) ps 0) (seq 0 (prodn newshape)).
+
+Definition conditionalize (tol : F) (d : dist) (idxs vals : list Z) : mres dist :=
+  let sh := d_shape d in
+  match cond_precheck sh idxs vals with
+  | Some c => MErr c
+  | None =>
+    let fixed := cond_fixed sh idxs vals in
+    let newshape := select (cond_freemask fixed) sh in
+    let sel := cond_sel sh (d_ps d) fixed in
+    let tot := lsum sel in
+    if match newshape with [] => true | _ => false end then MErr 10 else
+    if kleb F tot 0 && kleb F 0 tot then MErr 6 else
+    construct tol tol (map (fun p => p / tot) sel) (Some newshape)
+  end.
 
 Definition getitem (d : dist) (idx : list nat) : F := nth (rowmajorn (d_shape d) idx) (d_ps d) 0.
 
